@@ -224,28 +224,30 @@ def run(ctx):
     for style in (None, Sym("STYLE", truthy=True, pytype=str)):
         it = ctx.interp("C01.R3", hooks=hooks)
         s = Obj(scls, {"title": TITLE, "style": style, "setvalues_by_triggering_ref": {}}, name="survey")
-        order.clear()
-        it.reset([])
-        root = it.call_function(xml_fn, [s], {}, None, xml_fn.node)
-        desc = f"style={'set' if style else 'unset'}"
-        ok = isinstance(root, NodeVal) and root.tag == "h:html" and len(root.children) == 2 and root.text is None
-        head = root.children[0] if ok else None
-        body = root.children[1] if ok else None
-        ok = ok and isinstance(head, NodeVal) and head.tag == "h:head" and isinstance(body, NodeVal) and body.tag == "h:body"
-        r3.check(ok, f"Survey.xml[{desc}]:root", "root is h:html with exactly [h:head, h:body]", xml_fn.loc(), why_fail=repr(root)[:200])
-        if ok:
-            hk = head.children
-            r3.check(len(hk) == 2 and isinstance(hk[0], NodeVal) and hk[0].tag == "h:title" and hk[0].text is TITLE and not hk[0].children
-                     and hk[1] is MODEL and not head.attrs, f"Survey.xml[{desc}]:head",
-                     "head holds exactly one h:title (the title text) and the model", xml_fn.loc(), why_fail=repr(head)[:200])
-            r3.check(body.children == CTRL and body.text is None, f"Survey.xml[{desc}]:body", "body holds exactly the controls, in order", xml_fn.loc())
-            r3.check(dict(root.attrs) == NS and not any(str(k).startswith("xmlns") for k in {**head.attrs, **body.attrs}),
-                     f"Survey.xml[{desc}]:namespaces", "the namespace map is placed on the root element and only there", xml_fn.loc(),
-                     why_fail=f"root attrs={root.attrs}")
-            r3.check(dict(body.attrs) == ({"class": style} if style else {}), f"Survey.xml[{desc}]:body.class", "body class is the style setting (only)", xml_fn.loc(),
-                     why_fail=f"body attrs={body.attrs}")
-            r3.check("validate" in order and "model" in order and "control" in order and order.index("validate") < order.index("model") and order.index("validate") < order.index("control") and order[0] == "validate",
-                     f"Survey.xml[{desc}]:validate-first", "validation precedes all generation, on every call (the survey may have been edited since the last one)", xml_fn.loc(), why_fail=f"order={order}")
+        # (every resolution of a guard on the title text - empty or not - is a path of its own)
+        from ..interp import explore as _explore
+        paths_ = list(_explore(it, lambda: (order.clear(), it.call_function(xml_fn, [s], {}, None, xml_fn.node))[1]))
+        for dec_, out_, _eff, _ass in paths_:
+            root = out_[1] if out_[0] == "return" else None
+            desc = f"style={'set' if style else 'unset'}" + (f" decisions={dec_}" if dec_ else "")
+            ok = isinstance(root, NodeVal) and root.tag == "h:html" and len(root.children) == 2 and root.text is None
+            head = root.children[0] if ok else None
+            body = root.children[1] if ok else None
+            ok = ok and isinstance(head, NodeVal) and head.tag == "h:head" and isinstance(body, NodeVal) and body.tag == "h:body"
+            r3.check(ok, f"Survey.xml[{desc}]:root", "root is h:html with exactly [h:head, h:body]", xml_fn.loc(), why_fail=repr(root)[:200])
+            if ok:
+                hk = head.children
+                r3.check(len(hk) == 2 and isinstance(hk[0], NodeVal) and hk[0].tag == "h:title" and hk[0].text is TITLE and not hk[0].children
+                         and hk[1] is MODEL and not head.attrs, f"Survey.xml[{desc}]:head",
+                         "head holds exactly one h:title (the title text) and the model", xml_fn.loc(), why_fail=repr(head)[:200])
+                r3.check(body.children == CTRL and body.text is None, f"Survey.xml[{desc}]:body", "body holds exactly the controls, in order", xml_fn.loc())
+                r3.check(dict(root.attrs) == NS and not any(str(k).startswith("xmlns") for k in {**head.attrs, **body.attrs}),
+                         f"Survey.xml[{desc}]:namespaces", "the namespace map is placed on the root element and only there", xml_fn.loc(),
+                         why_fail=f"root attrs={root.attrs}")
+                r3.check(dict(body.attrs) == ({"class": style} if style else {}), f"Survey.xml[{desc}]:body.class", "body class is the style setting (only)", xml_fn.loc(),
+                         why_fail=f"body attrs={body.attrs}")
+                r3.check("validate" in order and "model" in order and "control" in order and order.index("validate") < order.index("model") and order.index("validate") < order.index("control") and order[0] == "validate",
+                         f"Survey.xml[{desc}]:validate-first", "validation precedes all generation, on every call (the survey may have been edited since the last one)", xml_fn.loc(), why_fail=f"order={order}")
     # model children order
     xm = scls.methods.get("xml_model")
     ed_cls_ = repo.cls("pyxform.entities.entity_declaration:EntityDeclaration")
